@@ -183,7 +183,8 @@ def random_spec(rnd, info) -> Dict[str, Any]:  # noqa: ANN001
             return {"kind": k, "first": True, "index": [0]}
         return {"kind": k, "index": rnd.choice([0, 1, len(its) - 1, len(its), [0, 1], [1, 5], [1], [2, 3], []])}
     if k == "rank":
-        return {"kind": k, "ranks": rnd.choice([0, 1, [0, 2], [7], list(range(info["n_ranks"])), []])}
+        # lists in descending order and with a repeated rank: a filter selects rows, it neither reorders nor repeats them
+        return {"kind": k, "ranks": rnd.choice([0, 1, [0, 2], [7], list(range(info["n_ranks"])), [], [1, 0], [0, 0, 1], list(range(info["n_ranks"]))[::-1]])}
     if k == "time":
         ends = info["ends"]
         starts = info["starts"]
